@@ -8,7 +8,7 @@ CHECKS = {
  "C01": ("exploration", "reference-model monitor over recorded query histories on live GameData handles + order-independence invariant (fresh-handle replay in another order); unique payload per stored location",
          "Each exists/find_offset/extract return on randomly generated installations is compared with an independent index model defined on hashes; every stored location carries a unique id so a wrong dat/offset/chunk is visible; histories are replayed in another order on a fresh handle to expose cache-dependent answers.",
          "SqPack index/dat layout as documented; leniency for repositories that are named but not installed"),
- "C02": ("exploration", "equality monitor against the independent packer's input + residual-heap and allocation monitors; ASan/LSan run of the same workload; Miri (UB + leak interpreter) on a small slice in the thorough tier",
+ "C02": ("exploration", "equality monitor against the independent packer's input + residual-heap and allocation monitors; ASan/LSan run of the same workload; Miri (UB + leak interpreter) on a small slice in the thorough tier; valgrind memcheck (uninitialised-value use) on a small slice in both tiers",
          "Entries of all three kinds packed by an independent Python packer (Python zlib streams of every block type, arbitrary splits) are read back through the real library and compared byte for byte / section by section; the allocator monitor checks that nothing stays allocated after each call and ASan+LSan watch the unsafe slice cast and the inflate path.",
          "Python zlib; entry layouts as documented"),
  "C03": ("exploration", "conservation monitor: directory tree after apply == Python interpreter of the reference ZiPatch semantics on the same abstract op list; strace syscall monitor on one-shot applies (thorough)",
@@ -50,10 +50,10 @@ CHECKS = {
  "C15": ("exploration", "table monitor over completely enumerated finite domains + injectivity invariant + ordering monitor over permutations (sort() and on-disk discovery)",
          "All race/tribe/gender triples, all file-name tuples and (thorough) all equipment ids x slots x triples and all permutations of all subsets up to 7 repositories are enumerated through the real functions and compared with independent tables; the finite parts are exhaustive, the cross-check with patch-side names and discovery orders is sampled.",
          "race-code table and naming conventions of the retail client are trusted"),
- "C17": ("fault_enumeration", "panic / abort / CPU / allocation / residual-heap monitors inside the worker over enumerated faults of valid files; Err-on-partial-failure monitor for patches (prefixes, unwritable targets, strace-injected EIO/ENOSPC at every I/O step); Miri over a stratified sample of the faults (thorough)",
+ "C17": ("fault_enumeration", "panic / abort / CPU / allocation / residual-heap monitors inside the worker over enumerated faults of valid files; Err-on-partial-failure monitor for patches (prefixes, unwritable targets, strace-injected EIO/ENOSPC at every I/O step); Miri over a stratified sample of the faults (thorough); valgrind memcheck over a larger stratified sample with every returned value walked (both tiers)",
          "Every truncation point and every single-field corruption (several widths, endiannesses and boundary values) of valid seeds of each user/launcher format is executed against the real entry point under in-process monitors; patches additionally under I/O fault sequences. A finite run restates 'never runs unboundedly / out of proportion' as CPU and allocation budgets.",
          "budgets as stated in DESIGN 3.2/3.3; crash sites identified by source line text"),
- "C18": ("fault_enumeration", "panic / abort / CPU / allocation / residual-heap monitors + ASan/LSan over enumerated faults of valid generated assets and archives; fault sequences on live GameData handles; Miri over a stratified sample of the faults and the failed-inflate leak case (thorough)",
+ "C18": ("fault_enumeration", "panic / abort / CPU / allocation / residual-heap monitors + ASan/LSan over enumerated faults of valid generated assets and archives; fault sequences on live GameData handles; Miri over a stratified sample of the faults and the failed-inflate leak case (thorough); valgrind memcheck over a larger stratified sample with every returned value walked (both tiers)",
          "Valid instances of every asset format produced by the independent builders are damaged field by field and prefix by prefix so that the arithmetic behind the magic checks runs on hostile values; archives are damaged between open and read on live handles; the allocator monitor and LSan decide the no-leak clause for failed decompression. Parser-wide crash sites that are not repaired are listed known findings keyed by site.",
          "budgets as stated in DESIGN 3.2/3.3; known findings in known_findings.json"),
  "C12": ("exploration", "reference-model monitor (zlib.crc32 / bitwise CRC / hashlib.sha1) over recorded hash calls; Miri on a small slice (zlib-rs crc32 FFI-style call, SHA-1 block view) in the thorough tier",
@@ -91,7 +91,7 @@ def main():
                    source_commits=[], add_only=True),
         engines=[dict(name="verif-shim+python-monitors", path="/verif/shim, /verif/vlib, /verif/check",
                       serves_properties=sorted(CHECKS),
-                      kind_free_text="Rust worker linking the real physis crate from /repo (panic hook, counting allocator, CPU clock; debug/release/ASan builds, Miri smoke) driven by Python workload generators with independent reference models; offline checkers over the recorded call/return log")],
+                      kind_free_text="Rust worker linking the real physis crate from /repo (panic hook, counting allocator, CPU clock; debug/release/ASan builds, Miri and valgrind-memcheck stages) driven by Python workload generators with independent reference models; offline checkers over the recorded call/return log")],
         checks=checks,
         notes="Runtime monitoring family. Exit codes: 0 held, 1 VIOLATION, 2 harness/build failure (never reported as a violation). Known findings: /verif/known_findings.json.",
         not_applicable=na,
